@@ -39,7 +39,13 @@ func c10Scenario(r *rand.Rand, long int) c01Scenario {
 	sc.PolDesc = fmt.Sprintf("fairness=%d procPct=%d permute=%v", sc.Pol.fairness, sc.Pol.procPct, sc.Pol.permute)
 	sc.Steps = []c01Step{{Op: "settle"}}
 	if long == 3 {
-		sc.Steps = append(sc.Steps, c01Step{Op: "reorg", D: 1 + r.Intn(3), N: 1 + r.Intn(2)}, c01Step{Op: "settle"})
+		if r.Intn(2) == 0 {
+			sc.Steps = append(sc.Steps, c01Step{Op: "reorg", D: 1 + r.Intn(3), N: 1 + r.Intn(2)}, c01Step{Op: "settle"})
+		} else {
+			// ... and the peer returns to the branch it has just left before the node has settled
+			sc.Steps = append(sc.Steps, c01Step{Op: "reorg", D: 1 + r.Intn(3), N: 1 + r.Intn(2)}, c01Step{Op: "partial", N: 2 + r.Intn(6)},
+				c01Step{Op: "revive", N: 1 + r.Intn(2)}, c01Step{Op: "settle"})
+		}
 	}
 	if long == 1 && sc.Initial > 1000 && sc.Initial < 1010 {
 		// a reorg whose fork point lies in the previous header file
